@@ -358,7 +358,8 @@ def gen_history(job):
         modes.update({int(k): tuple(v) for k, v in st["modes"].items() if v is not None})
         try:
             m = gens[st["key"]](GP(w=1))
-            r = dict(ok=m.name)
+            # a generator call returns a Module or raises; anything else handed out is an outcome of its own
+            r = dict(ok=m.name) if isinstance(m, h.Module) else dict(err=dict(cls="NotAModule", msg=repr(m)[:80]))
         except RecursionError as e:
             r = dict(err=dict(cls="RecursionError", msg=""))
         except BaseException as e:
